@@ -300,6 +300,10 @@ def rigid_difference(a, b):
     """two terms that are different computations whatever the conditionals merged inside them come out as: neither is itself a merged
     conditional / starred sequence / unknown, and they differ at the top (another operator, another callee, another number of operands, a
     symbol against a computation)"""
+    if is_tag(a, "phi"):
+        return rigid_difference(a[2], b) and rigid_difference(a[3], b)          # whichever arm it is, it differs from b at the top
+    if is_tag(b, "phi"):
+        return rigid_difference(a, b[2]) and rigid_difference(a, b[3])
     if is_tag(a, *SOFT_TAGS) or is_tag(b, *SOFT_TAGS):
         return False
     ra, rb = root(a), root(b)
